@@ -55,6 +55,8 @@ func vcCons(c *ECons) schema.Constraint {
 		return schema.Keyword{Keyword: "kw"}
 	case "listref":
 		return schema.List{Elem: schema.Reference{OfType: anyType(c.T)}}
+	case "tup2":
+		return schema.Tuple{Elems: []schema.Constraint{schema.Reference{OfType: cty.String}, schema.Reference{OfType: anyType(c.T)}}}
 	case "setany":
 		return schema.Set{Elem: schema.AnyExpression{OfType: anyType(c.T)}}
 	}
@@ -150,6 +152,9 @@ func runVCCase(wt *watch, c *VCCase, idx int) Event {
 	open := ""
 	if c.Cons.K == "listref" || c.Cons.K == "setany" {
 		open = "["
+	}
+	if c.Cons.K == "tup2" {
+		open = "[loc.s, "
 	}
 	pre, post := "", ""
 	switch c.Form {
